@@ -435,60 +435,6 @@ def P19(m, R):
             tgt = norm(st.value.func.value)
             ev = env.get('#ev', ())
             env['#ev'] = ev + ((tgt, norm(st.value.args[0])),)
-    # the two facts the matcher loop establishes: CF "the token is the first code of some colour function" (assigned under a comparison
-    # with fn.setup_seq[0]) and MT "a setup sequence matches here" (assigned under seq_starts_with_fn); copies are followed
-    CF, MT = set(), set()
-    for n in ast.walk(loop):
-        if isinstance(n, ast.If):
-            tt_ = norm(n.test)
-            tgt = MT if 'seq_starts_with_fn' in tt_ else CF if 'setup_seq[0]' in tt_ else None
-            if tgt is not None:
-                for x in n.body:
-                    if isinstance(x, (ast.Assign, ast.AugAssign)):
-                        for t_ in (x.targets if isinstance(x, ast.Assign) else [x.target]):
-                            tgt.update(names_in(t_))
-                if tgt is MT and len(n.orelse) == 1 and isinstance(n.orelse[0], ast.If) and 'setup_seq[0]' in norm(n.orelse[0].test):
-                    pass
-    for _ in range(3):
-        for n in ast.walk(loop):
-            if isinstance(n, ast.Assign) and len(n.targets) == 1:
-                t_, v_ = n.targets[0], n.value
-                pairs = list(zip(t_.elts, v_.elts)) if isinstance(t_, ast.Tuple) and isinstance(v_, ast.Tuple) and len(t_.elts) == len(v_.elts) else [(t_, v_)]
-                for a_, b_ in pairs:
-                    if isinstance(a_, ast.Name) and isinstance(b_, ast.Name):
-                        if b_.id in CF:
-                            CF.add(a_.id)
-                        if b_.id in MT:
-                            MT.add(a_.id)
-    for flag in (True, False):
-        for is_int in (True, False):
-            cons = 'add_erroneous=%s, %s token' % (flag, 'int' if is_int else 'non-int')
-            env0 = {ae: flag, 'isinstance(%s, int)' % value: is_int}
-            ps = paths(cfg, first, lambda nd: nd is head, env0=env0, transfer=transfer, max_visits=2, limit=200000)
-            ps = [(p, e) for p, e in ps if p[-1] is head]
-            kept = [(p, e) for p, e in ps if any(t == cur_set for t, _ in e.get('#ev', ())) or any(t == 'output' and value in a for t, a in e.get('#ev', ()))]
-            skipped = [(p, e) for p, e in ps if (p, e) not in kept]
-            if flag and not is_int:
-                continue        # what happens to non-integer tokens under add_erroneous=True is outside the property (every *integer* token is kept)
-            if flag:
-                R.check(not skipped and ps, f, loop, 'every %s token is kept (%d paths)' % ('integer' if is_int else 'non-integer', len(ps)),
-                        'a %s token is dropped although add_erroneous=True' % ('integer' if is_int else 'non-integer'), construct=cons,
-                        witness=_path_text(skipped[0][0], 12) if skipped else None)
-            elif is_int:
-                # the only skip: fn_found and not fn_set
-                bad = []
-                for p, e in skipped:
-                    tested = set()
-                    for nd in p:
-                        if nd.kind == 'test':
-                            tested |= set(names_in(nd.test))
-                    ok = bool(tested & CF) and bool(tested & MT)
-                    if not ok:
-                        bad.append(p)
-                R.check(not bad and kept, f, loop, 'an integer token is skipped only as a colour code without its setup sequence',
-                        'an integer token can be skipped for another reason', construct=cons, witness=_path_text(bad[0], 12) if bad else None)
-            else:
-                R.check(not kept, f, loop, 'non-integer tokens contribute nothing', 'a non-integer token is kept although add_erroneous=False', construct=cons)
     # group start: abstract interpretation of the scan as a state machine over (accumulator empty?, remaining count) -- whenever no
     # group is pending, an integer token must be matched against the colour functions before it is stored
     _group_start(R, f, loop, value, cur_set, ae)
@@ -504,43 +450,6 @@ def P19(m, R):
             any(call_name(x) == 'append' and norm(x.args[0]) == 'AnsiSetting(%s)' % cur_set for x in ast.walk(g) if isinstance(x, ast.Call))
         R.check(ok, f, g, 'an incomplete group is emitted exactly when add_erroneous=True', 'emitted for (non-empty, add_erroneous) in %s' % sorted(k for k, v in tt.items() if v),
                 construct=cons)
-    # group completion: count-down and flush
-    cons = 'group completion'
-    dec = [n for n in ast.walk(loop) if isinstance(n, ast.AugAssign) and isinstance(n.op, ast.Sub) and const_val(n.value) == 1]
-    flush = [n for n in ast.walk(loop) if isinstance(n, ast.If) and any(isinstance(s_, ast.Expr) and call_name(s_.value) == 'append' and
-                                                                          norm(s_.value.args[0]) == 'AnsiSetting(%s)' % cur_set for s_ in n.body)]
-    problems = []
-    if len(dec) != 1:
-        problems.append('%d count-downs per token' % len(dec))
-    if not flush:
-        problems.append('a completed group is never emitted')
-    else:
-        g = flush[0]
-        cnt = norm(dec[0].target) if dec else '?'
-        tt = {nm: eval_guard(g.test, order_valuation({cnt: r, '0': 0})) for nm, r in (('<0', -1), ('=0', 0), ('>0', 1))}
-        if tt != {'<0': True, '=0': True, '>0': False}:
-            problems.append('group emitted for remaining-count regions %s (must be: none left)' % sorted(k for k, v in tt.items() if v))
-        if not any(isinstance(x, ast.Assign) and norm(x.targets[0]) == cur_set and norm(x.value) == '[]' for x in g.body):
-            problems.append('the accumulator is not cleared after emission')
-    sets = [n for n in ast.walk(loop) if isinstance(n, ast.Assign) and dec and norm(n.targets[0]) == norm(dec[0].target)]
-    # variables that hold the matched function's total length (assigned from fn.total_seq_count, then copied)
-    TS = {'fn.total_seq_count'}
-    for _ in range(3):
-        for n in ast.walk(loop):
-            if isinstance(n, ast.Assign) and len(n.targets) == 1:
-                t_, v_ = n.targets[0], n.value
-                pairs = list(zip(t_.elts, v_.elts)) if isinstance(t_, ast.Tuple) and isinstance(v_, ast.Tuple) and len(t_.elts) == len(v_.elts) else [(t_, v_)]
-                for a_, b_ in pairs:
-                    if isinstance(a_, ast.Name) and norm(b_) in TS and a_.id != (norm(dec[0].target) if dec else ''):
-                        TS.add(a_.id)
-    vals = sorted(norm(s.value) for s in sets)
-    if not any(v in TS for v in vals):
-        problems.append('the expected group length is never taken from the matched function (%s)' % vals)
-    for v in vals:
-        if v not in TS and not (isinstance(const_val(ast.parse(v, mode='eval').body, None), int) and const_val(ast.parse(v, mode='eval').body) <= 1):
-            problems.append('a plain code is given the group length %s: the following codes are swallowed into its group' % v)
-    R.check(not problems, f, loop, 'a group is 1 code or the matched function\'s total length; emitted and cleared when complete', '; '.join(problems), construct=cons)
-
 
 
 def _group_start(R, f, loop, value, cur_set, ae):
@@ -586,7 +495,7 @@ def _group_start(R, f, loop, value, cur_set, ae):
         if tx == 'len(%s)' % cur_set:
             return st_['cs'] == 'N'
         if tx == 'isinstance(%s, int)' % value:
-            return True
+            return st_['is_int']
         if tx == ae:
             return st_['ae']
         if isinstance(t, ast.Name) and t.id in st_['vars']:
@@ -642,15 +551,24 @@ def _group_start(R, f, loop, value, cur_set, ae):
             arms = []
             for n in s0.body:
                 if isinstance(n, ast.If):
-                    arms.append(n.body)
-                    if len(n.orelse) == 1 and isinstance(n.orelse[0], ast.If):
-                        arms.append(n.orelse[0].body)
-            # outcomes: nothing matched, each arm alone, all arms
-            combos = [[]] + [[a] for a in arms] + ([arms] if len(arms) > 1 else [])
-            for combo in combos:
+                    cur_ = n
+                    while cur_ is not None:
+                        tt_ = norm(cur_.test)
+                        kind_ = 'MT' if 'seq_starts_with_fn' in tt_ else 'CF' if 'setup_seq[0]' in tt_ else '?'
+                        arms.append((kind_, cur_.body))
+                        cur_ = cur_.orelse[0] if len(cur_.orelse) == 1 and isinstance(cur_.orelse[0], ast.If) else None
+            if any(k_ == '?' for k_, _ in arms) or not any(k_ == 'MT' for k_, _ in arms):
+                raise Undecided('matcher loop %s' % short(s0))
+            # outcomes over the colour functions: none concerns this code; one matches here (then its first code equals this code for the others of
+            # its family too: both arms may run); the code is a colour code but no setup matches
+            mt = [a_ for k_, a_ in arms if k_ == 'MT']
+            cf = [a_ for k_, a_ in arms if k_ == 'CF']
+            combos = [((), [])] + [(('MT',), mt)] + ([(('CF',), cf)] if cf else []) + ([(('CF', 'MT'), cf + mt), (('MT', 'CF'), mt + cf)] if cf else [])
+            for tag, blocks in combos:
                 s2 = clone(st_)
                 s2['consulted'] = True
-                body = [x for a in combo for x in a]
+                s2['combo'] = tag
+                body = [x for a in blocks for x in a]
                 run(body + rest, s2, k)
             return
         if isinstance(s0, ast.Assign) and len(s0.targets) == 1:
@@ -660,6 +578,14 @@ def _group_start(R, f, loop, value, cur_set, ae):
             for a_, b_ in pairs:
                 if not isinstance(a_, ast.Name):
                     vals.append((None, None))
+                    continue
+                while isinstance(b_, ast.IfExp):
+                    tv_ = truth(b_.test, st_)
+                    if tv_ is None:
+                        raise Undecided('condition %s' % short(b_.test))
+                    b_ = b_.body if tv_ else b_.orelse
+                if isinstance(b_, (ast.BoolOp, ast.UnaryOp, ast.Compare)) and truth(b_, st_) is not None:
+                    vals.append((a_.id, truth(b_, st_)))
                     continue
                 if isinstance(b_, ast.Constant):
                     val = b_.value
@@ -703,13 +629,31 @@ def _group_start(R, f, loop, value, cur_set, ae):
             if st_['cs'] == 'E' and not st_['consulted']:
                 st_['stored_first'] = True
             st_['cs'] = 'N'
+            st_['stored'] = True
+            return run(rest, st_, k)
+        if isinstance(s0, ast.Expr) and isinstance(s0.value, ast.Call) and call_name(s0.value) in ('append', 'extend') and s0.value.args:
+            at_ = names_in(s0.value.args[0])
+            if cur_set in at_:
+                st_['flushed'] = True
+            elif value in at_:
+                st_['emitted'] = True
             return run(rest, st_, k)
         if isinstance(s0, (ast.For, ast.While, ast.Try, ast.With)):
             raise Undecided('statement %s inside the scan' % short(s0))
         return run(rest, st_, k)
 
     problems = []
+    facts = []
+    nonint = []
     try:
+        for flag in (False, True):
+            # a token that is not an integer, in every head state
+            for hs0 in (('E', 0), ('N', 1), ('N', 2), ('N', 'BIG')):
+                results.clear()
+                st0 = {'cs': hs0[0], 'cnt': hs0[1], 'ae': flag, 'vars': {}, 'consulted': False, 'stored_first': False, 'is_int': False, 'combo': None,
+                       'stored': False, 'flushed': False, 'emitted': False}
+                run(list(loop.body), st0, lambda s_: results.append((s_, 'end')))
+                nonint.extend((flag, s_) for s_, _h in results)
         for flag in (False, True):
             seen = set()
             # without an initial value the remaining count is arbitrary at the first token
@@ -721,13 +665,15 @@ def _group_start(R, f, loop, value, cur_set, ae):
                     continue
                 seen.add(hs)
                 results.clear()
-                st0 = {'cs': hs[0], 'cnt': hs[1], 'ae': flag, 'vars': {}, 'consulted': False, 'stored_first': False}
+                st0 = {'cs': hs[0], 'cnt': hs[1], 'ae': flag, 'vars': {}, 'consulted': False, 'stored_first': False, 'is_int': True, 'combo': None,
+                       'stored': False, 'flushed': False, 'emitted': False}
                 run(list(loop.body), st0, lambda s_: results.append((s_, 'end')))
                 for s_, how in list(results):
                     if how == 'exit':
                         continue
                     if hs[0] == 'E' and s_['stored_first']:
                         problems.append((flag, hs, reach.get(hs)))
+                    facts.append((flag, hs, s_, how))
                     nh = (s_['cs'], s_['cnt'])
                     if nh not in seen:
                         reach.setdefault(nh, (hs, how))
@@ -748,6 +694,48 @@ def _group_start(R, f, loop, value, cur_set, ae):
     else:
         R.ok(f, loop, 'whenever no group is pending an integer token is matched against the colour functions before it is stored '
              '(all reachable states of (accumulator, %s))' % cnt, construct=cons)
+    # ---- what happens to an integer token, by the outcome of the colour-function match
+    for flag in (True, False):
+        cons2 = 'add_erroneous=%s, int token' % flag
+        bad = None
+        for fl, hs, s_, how in facts:
+            if fl != flag or s_['stored']:
+                continue
+            dangling = s_['combo'] == ('CF',)
+            if flag or not dangling:
+                bad = (hs, s_['combo'])
+                break
+        if flag:
+            R.check(bad is None, f, loop, 'every integer token is kept', 'an integer token is dropped although add_erroneous=True (state %s, match outcome %s)' % (bad or ('', ''))[:2],
+                    construct=cons2)
+        else:
+            R.check(bad is None, f, loop, 'an integer token is skipped only as a colour code without its setup sequence',
+                    'an integer token can be skipped for another reason (state %s, match outcome %s)' % (bad or ('', ''))[:2], construct=cons2)
+    bad = next((s_ for fl, s_ in nonint if not fl and (s_['stored'] or s_['emitted'])), None)
+    R.check(bad is None, f, loop, 'non-integer tokens contribute nothing', 'a non-integer token is kept although add_erroneous=False', construct='add_erroneous=False, non-int token')
+    # ---- group length and completion
+    probs = []
+    for fl, hs, s_, how in facts:
+        if not s_['stored']:
+            continue
+        if hs[0] == 'E':
+            matched = s_['combo'] is not None and 'MT' in s_['combo']
+            if matched:
+                if s_['cs'] != 'N' or s_['cnt'] not in (2, 'BIG'):
+                    probs.append('after the first code of a matched colour function the group is %s with %s codes left: the expected length is not the function\'s total length'
+                                 % ('pending' if s_['cs'] == 'N' else 'closed', s_['cnt']))
+            else:
+                if s_['cs'] != 'E' or not s_['flushed']:
+                    probs.append('a plain code does not form a group of its own (%s codes left after it): the following codes are swallowed into its group' % (s_['cnt'],))
+        else:
+            if hs[1] == 1 and (s_['cs'] != 'E' or not s_['flushed']):
+                probs.append('the last code of a group does not complete it')
+            if hs[1] in (2, 'BIG') and s_['cs'] == 'E' and hs[1] == 2:
+                probs.append('a group is emitted while a code is still missing')
+        if s_['flushed'] and s_['cs'] != 'E':
+            probs.append('the accumulator is not cleared after emission')
+    R.check(not probs, f, loop, 'a group is 1 code or the matched function\'s total length; emitted and cleared when complete', '; '.join(sorted(set(probs))[:2]),
+            construct='group completion')
 
 # ----------------------------------------------------------------------------------------------------------------------
 @rule('P20', 'seam-order: __iadd__ captures the shift before extending the text; every stored key is incoming key + shift', floor=3)
@@ -771,13 +759,35 @@ def P20(m, R):
     if lp is None:
         raise AnalysisError('anchor vanished: merge loop of __iadd__')
     k = norm(lp.target.elts[0])
-    first = lp.body[0]
-    ok = isinstance(first, ast.AugAssign) and norm(first.target) == k and isinstance(first.op, ast.Add) and norm(first.value) == sv
-    stores = [n for n in ast.walk(lp) if isinstance(n, (ast.Assign, ast.Delete)) and any(
-        isinstance(t, ast.Subscript) and norm(t.value) == tbl for t in (n.targets))]
-    keys = {norm(t.slice) for n in stores for t in n.targets if isinstance(t, ast.Subscript)}
-    R.check(ok and keys <= {k}, f, first, 'key += shift first; the table is only touched under the shifted key',
-            'keys used to store into the table: %s; first statement %s' % (sorted(keys), short(first)), construct=cons)
+    # every key under which the receiver's table is read or written inside the merge loop evaluates to <incoming key> + <shift>
+    from .P_more import Sym, _sym_eval
+    env_ = {k: Sym({'K': 1}), sv: Sym({'S': 1})}
+    bad_keys = []
+    try:
+        for st_ in lp.body:
+            if isinstance(st_, ast.AugAssign) and isinstance(st_.target, ast.Name) and isinstance(st_.op, (ast.Add, ast.Sub)):
+                d_ = _sym_eval(st_.value, env_)
+                env_[st_.target.id] = env_.get(st_.target.id, Sym({st_.target.id: 1})) + d_ if isinstance(st_.op, ast.Add) else env_.get(st_.target.id, Sym({st_.target.id: 1})) - d_
+            elif isinstance(st_, ast.Assign) and len(st_.targets) == 1 and isinstance(st_.targets[0], ast.Name) and isinstance(st_.value, (ast.BinOp, ast.Name)):
+                try:
+                    env_[st_.targets[0].id] = _sym_eval(st_.value, env_)
+                except Undecided:
+                    pass
+            else:
+                break
+        want_ = Sym({'K': 1, 'S': 1})
+        for n in ast.walk(lp):
+            key_ = None
+            if isinstance(n, ast.Subscript) and norm(n.value) == tbl:
+                key_ = n.slice
+            elif isinstance(n, ast.Compare) and len(n.ops) == 1 and isinstance(n.ops[0], (ast.In, ast.NotIn)) and norm(n.comparators[0]) == tbl:
+                key_ = n.left
+            if key_ is not None and _sym_eval(key_, env_) != want_:
+                bad_keys.append('%s = %r' % (norm(key_), _sym_eval(key_, env_)))
+        R.check(not bad_keys, f, lp, 'the receiver\'s table is only touched under <incoming key> + <shift>',
+                'inside the merge loop the receiver\'s table is accessed under %s (K = incoming key, S = shift); expected K + S' % sorted(set(bad_keys)), construct=cons)
+    except Undecided as ex:
+        R.undecided(f, lp, 'keys of the merge loop not evaluated: %s' % ex, construct=cons)
     cons = 'sorted merge'
     R.check(call_name(lp.iter) == 'sorted', f, lp, 'incoming points are merged in ascending key order', 'incoming points are visited as %s' % norm(lp.iter), construct=cons)
     ext_ok = ext is not None and isinstance(ext.op, ast.Add)
@@ -1054,6 +1064,23 @@ def _parsable_scenarios(R, m, f, codes, memo):
                 return st['memo']
             if isinstance(e, ast.Name) and e.id in st['vars']:
                 return st['vars'][e.id]
+            if isinstance(e, ast.Call) and isinstance(e.func, ast.Attribute) and e.func.attr.startswith('_') and not e.func.attr.startswith('__') and \
+                    norm(e.func.value) in (selfn, '__class__', f.cls) and not e.keywords:
+                h = m.funcs.get('%s.%s' % (f.cls, e.func.attr))
+                if h is not None and h is not f:
+                    from ..inline import _subst as subst1
+                    ps_ = h.own_params() if h.self_name else list(h.params)
+                    if len(ps_) != len(e.args):
+                        raise Undecided('call %s' % short(e))
+                    env_ = dict(zip(ps_, e.args))
+                    if h.self_name and h.self_name != selfn:
+                        env_[h.self_name] = ast.Name(id=selfn, ctx=ast.Load())
+                    al.update({k_: v_ for k_, v_ in local_aliases(h).items() if k_ not in al})
+                    try:
+                        run([subst1(b_, env_) for b_ in h.body])
+                    except _Returned as r_:
+                        return r_.value
+                    return None
             v = truth(e)
             if v is None:
                 raise Undecided('value `%s` is not determined by the scenario' % short(e))
@@ -1170,7 +1197,10 @@ def P25(m, R):
         if isinstance(n, ast.Assign) and call_name(n.value) == 'to_list':
             codes = norm(n.targets[0])
     if codes is None:
-        raise AnalysisError('anchor vanished: to_list() in parsable')
+        if any(isinstance(n, ast.Call) and call_name(n) == 'to_list' for n in f.walk()):
+            codes = '%s.to_list()' % f.self_name         # passed straight on to a helper
+        else:
+            raise AnalysisError('anchor vanished: to_list() in parsable')
     _parsable_scenarios(R, m, f, codes, memo)
     # to_list: every token appended exactly once (a loop with try/int/except, or a comprehension over a convert-or-keep helper)
     tl = m.fn('AnsiSetting.to_list')
@@ -1245,14 +1275,34 @@ def P25(m, R):
                     ok, why = False, 'a token that converts is kept as %s' % a_
                     break
     else:
+        # a comprehension over the pieces keeps each piece once by construction; what it keeps is decided on the abstract token classes
         rets_ = [n for n in tl.walk() if isinstance(n, ast.Return)]
         if len(rets_) == 1 and isinstance(rets_[0].value, ast.ListComp) and len(rets_[0].value.generators) == 1:
             g_ = rets_[0].value.generators[0]
             e_ = rets_[0].value.elt
-            if norm(g_.iter) == 'self._str.split(ansi_sep)' and not g_.ifs and isinstance(e_, ast.Call) and len(e_.args) == 1 and \
-                    norm(e_.args[0]) in ('%s.strip()' % norm(g_.target), norm(g_.target)):
-                h_ = m.funcs.get(call_name(e_)) or m.funcs.get('AnsiSetting.%s' % call_name(e_))
-                ok = h_ is not None and int_or_same(h_)
+            if norm(g_.iter) == 'self._str.split(ansi_sep)' and isinstance(g_.target, ast.Name):
+                from .P_more3 import _tok_eval, _tok_run, _TokError, _TOK
+                conv = {}
+                try:
+                    for cls_ in _TOK:
+                        env_ = {g_.target.id: cls_}
+                        h_ = None
+                        if isinstance(e_, ast.Call) and len(e_.args) == 1 and not e_.keywords and call_name(e_) not in ('int', 'AnsiParam'):
+                            h_ = m.funcs.get(call_name(e_)) or m.funcs.get('AnsiSetting.%s' % call_name(e_))
+                        if h_ is not None:
+                            ps_ = h_.own_params() if h_.self_name else h_.params
+                            conv[cls_] = _tok_run(h_.body, {ps_[0]: _tok_eval(e_.args[0], env_)})
+                        else:
+                            conv[cls_] = _tok_eval(e_, env_)
+                    ok = not g_.ifs and isinstance(conv['digits'], tuple) and conv['digits'][0] == 'int' and conv['other text'] == 'other text' and conv['empty'] == 'empty'
+                    if g_.ifs:
+                        why = 'pieces are filtered by %s: a dropped piece makes a malformed setting look well-formed' % short(g_.ifs[0])
+                    elif not ok:
+                        why = 'a piece of class digits / other text / empty is kept as %s / %s / %s' % (conv['digits'], conv['other text'], conv['empty'])
+                except _TokError:
+                    ok, why = False, 'a piece that is not a number makes to_list raise ValueError'
+                except Undecided:
+                    ok = None
     if ok is None:
         R.undecided(tl, tl.node, 'token conversion of to_list not recognised', construct='to_list tokens')
     else:
